@@ -28,7 +28,10 @@ RULE = (
     "obj.write and loaded back with load_aligned_seqs / load_unaligned_seqs / load_seq; harness-written FASTA texts "
     "(line widths, LF/CRLF, with/without final newline, compressed or not) through every FASTA parser variant; text "
     "files through iter_splitlines for every chunk size 1..len+1 (small files) or a lattice of sizes (larger) and "
-    "iter_line_blocks; generated GenBank files (1-3 LOCUS records, features with join/complement/partial/single-base "
+    "iter_line_blocks; every plain fasta/phylip/paml/gde file written above handed to the format's registered parser "
+    "(get_parser / PARSERS) as Path, str, list of lines, tuple of lines, lines that keep their LF or CRLF endings (as "
+    "readlines() gives), and to the load_aligned / load_unaligned apps, incl. widths 61..260 so that PHYLIP "
+    "continuation lines occur; generated GenBank files (1-3 LOCUS records, features with join/complement/partial/single-base "
     "locations, wrapped location lines) through minimal_parser / rich_parser / the legacy line parser / the loaders. "
     "Non-trivial = a hostile or boundary-length name, or a sequence length on the wrap lattice, or a chunk boundary "
     "inside a line, or a multi-span / minus-strand feature; distinct = (format, compression, container class, name "
@@ -178,7 +181,7 @@ def gen_length(rng, forced=None):
         return rng.choice(LATTICE)
     if r < 0.95:
         return rng.randint(1, 130)
-    return rng.choice([179, 180, 181, 240, 260])
+    return rng.choice([130, 179, 180, 181, 240, 260])
 
 
 def name_class(names):
@@ -372,6 +375,103 @@ def check_roundtrip(res, spec):
                 else:
                     mech = f"C06/roundtrip/{fmt}/{which}/{bad}"
                 res.witness(mech, stage=which, fmt=fmt, got_names=gnames, got_seqs=gseqs, **detail)
+        if cmp == "" and fmt != "json":
+            # the written file handed to the format's registered parser by every input route, and to the app loaders
+            check_routes(res, path, raw, fmt, names, seqs, mt, aligned, detail)
+
+
+def check_routes(res, path, raw, fmt, names, seqs, mt, aligned, detail):
+    """every way of handing the written (plain) file to the registered parser returns the written records"""
+    import cogent3
+    from cogent3.parse.sequence import PARSERS, get_parser
+
+    text = raw.decode("ascii")
+    lines = text.splitlines()
+    keep = text.splitlines(keepends=True)  # as readlines() gives them
+    crlf = [l + "\r\n" for l in lines]
+    L = max(len(q) for q in seqs)
+    blocks = "one-block" if L <= 60 else "two-blocks" if L <= 120 else "more-blocks"
+    if fmt == "phylip" and L > 60:
+        res.count("routes:phylip-continuation-lines")
+    head = raw[:100]
+    has_gt = fmt == "fasta" and any(">" in n for n in names)
+
+    def decide(route, rclass, got_names, got_seqs, exp_seqs):
+        res.evals += 1
+        res.sig("routes", fmt, route, blocks, "aligned" if aligned else "collection")
+        bad = names_ok(fmt, names, got_names)
+        if bad is None and got_seqs != exp_seqs:
+            bad = "seqs-differ"
+        if bad:
+            if has_gt and rclass == "path" and bad != "seqs-differ":
+                mech = F13
+            elif fmt != "fasta" and rclass == "path" and hz_suspect(head):
+                mech = HZ
+            else:
+                mech = f"C06/routes/{fmt}/{rclass}/{bad}"
+            res.witness(mech, route=route, fmt=fmt, got_names=got_names[:8], got_seqs=[q[:200] for q in got_seqs[:8]], **detail)
+
+    try:
+        parser = get_parser(fmt)
+        if parser is not PARSERS[fmt]:
+            res.witness(f"C06/routes/{fmt}/get_parser-is-not-registry-entry", **detail)
+    except Exception as e:  # noqa: BLE001
+        res.witness(exc_mechanism(f"C06/routes/{fmt}/get_parser", e), error=repr(e)[:300], **detail)
+        return
+    routes = [
+        ("Path", "path", path),
+        ("str", "path", str(path)),
+        ("list", "lines", list(lines)),
+        ("tuple", "lines", tuple(lines)),
+        ("list-with-eol", "lines-with-eol", list(keep)),
+        ("tuple-with-eol", "lines-with-eol", tuple(keep)),
+        ("list-with-crlf", "lines-with-eol", crlf),
+    ]
+    for route, rclass, arg in routes:
+        res.count(f"route:{fmt}:{route}")
+        try:
+            got = [(str(a), str(b)) for a, b in parser(arg)]
+        except TypeError as e:
+            if "not implemented for" in str(e) and isinstance(arg, tuple):
+                res.refused += 1  # the bytes FASTA parser declines tuples with an explicit TypeError
+                res.count(f"route-refused:{fmt}:{route}")
+                continue
+            res.evals += 1
+            res.witness(exc_mechanism(f"C06/routes/{fmt}/{rclass}", e), route=route, error=repr(e)[:300], **detail)
+            continue
+        except Exception as e:  # noqa: BLE001
+            res.evals += 1
+            if has_gt and rclass == "path":
+                res.witness(F13, route=route, error=repr(e)[:300], **detail)
+            elif fmt != "fasta" and rclass == "path" and hz_suspect(head):
+                res.witness(HZ, route=route, fmt=fmt, error=repr(e)[:300], **detail)
+            else:
+                res.witness(exc_mechanism(f"C06/routes/{fmt}/{rclass}", e), route=route, error=repr(e)[:300], **detail)
+            continue
+        decide(route, rclass, [a for a, _ in got], [b for _, b in got], seqs)
+    # the app loaders read the file themselves and hand the parser a list of lines
+    apps = [("load_aligned", seqs), ("load_unaligned", [q.replace("-", "").replace("?", "") for q in seqs])] if aligned else [
+        ("load_unaligned", [q.replace("-", "").replace("?", "") for q in seqs])
+    ]
+    for appname, exp_seqs in apps:
+        route = f"app-{appname}"
+        res.count(f"route:{fmt}:{route}")
+        try:
+            app = cogent3.get_app(appname, format=fmt, moltype=mt)
+            r = app(path)
+        except Exception as e:  # noqa: BLE001
+            res.evals += 1
+            res.witness(exc_mechanism(f"C06/routes/{fmt}/app", e), route=route, error=repr(e)[:300], **detail)
+            continue
+        if not r and type(r).__name__ == "NotCompleted":
+            res.evals += 1
+            msg = str(getattr(r, "message", ""))
+            last = msg.strip().splitlines()[-1] if msg.strip() else ""
+            res.witness(f"C06/routes/{fmt}/app/not-completed-{last.split(':')[0].split('.')[-1][:40] or 'unknown'}", route=route, message=msg[-600:], **detail)
+            continue
+        gnames = list(r.names)
+        gd = r.to_dict()
+        decide(route, "app", gnames, [gd[n] for n in gnames], exp_seqs)
 
 
 def check_text_writer(res, obj, fmt, names, seqs, detail):
@@ -1027,5 +1127,7 @@ def required(counters, tier):
     need += ["decided:load", "decided:load_seq", "fasta-parsers:texts", "fasta-parser:path", "fasta-parser:strict-streamed",
              "fasta-parser:nonstrict-path", "fasta-parser:textio", "splitlines:exhaustive-files", "splitlines:lattice-files",
              "line-blocks", "genbank:single-record-files", "genbank:multi-record-files", "genbank:minus-strand-features",
-             "genbank:join-features", "genbank-parser:minimal", "genbank-parser:rich"]
+             "genbank:join-features", "genbank-parser:minimal", "genbank-parser:rich", "routes:phylip-continuation-lines"]
+    need += [f"route:{fmt}:{r}" for fmt in ("fasta", "phylip", "paml", "gde")
+             for r in ("Path", "str", "list", "tuple", "list-with-eol", "tuple-with-eol", "app-load_aligned", "app-load_unaligned")]
     return [k for k in need if not counters.get(k)]
